@@ -289,4 +289,212 @@ theorem fieldsOk_raw (m : Macros) : ∀ (raw : List (Str × Str)) (seen : List S
       decide
 
 
+/-! ### the denotation of the written fields is the entry -/
+
+theorem denote_roles (m : Macros) : ∀ (rs : List (Str × List Person)) (e0 : Entry),
+    (∀ r ∈ rs, isPersonField r.1 = true ∧ normalizeWs (formatNames r.2) = formatNames r.2 ∧
+      personsOf (formatNames r.2) = r.2 ∧ r.2 ≠ []) →
+    (docOfRaw (rolesRaw rs)).foldl (denoteField m) e0 = { e0 with persons := e0.persons ++ rs } := by
+  intro rs
+  induction rs with
+  | nil => intro e0 _; simp [docOfRaw, rolesRaw]
+  | cons r rs ih =>
+    intro e0 h
+    obtain ⟨h1, h2, h3, h4⟩ := h r (by simp)
+    simp only [docOfRaw, rolesRaw, List.map_cons, List.foldl_cons]
+    have hstep : denoteField m e0 (r.1, [Piece.lit (formatNames r.2)]) =
+        { e0 with persons := e0.persons ++ [r] } := by
+      unfold denoteField
+      simp only [expand_lit, h2, h1, if_true, h3, h4, if_false]
+    rw [hstep]
+    have := ih { e0 with persons := e0.persons ++ [r] } (fun x hx => h x (by simp [hx]))
+    simp only [docOfRaw, rolesRaw] at this
+    rw [this]
+    simp
+
+theorem denote_fields (m : Macros) : ∀ (fs : List (Str × Str)) (e0 : Entry),
+    (∀ f ∈ fs, isPersonField f.1 = false ∧ normalizeWs f.2 = f.2) →
+    (docOfRaw fs).foldl (denoteField m) e0 = { e0 with fields := e0.fields ++ fs } := by
+  intro fs
+  induction fs with
+  | nil => intro e0 _; simp [docOfRaw]
+  | cons f fs ih =>
+    intro e0 h
+    obtain ⟨h1, h2⟩ := h f (by simp)
+    simp only [docOfRaw, List.map_cons, List.foldl_cons]
+    have hstep : denoteField m e0 (f.1, [Piece.lit f.2]) = { e0 with fields := e0.fields ++ [f] } := by
+      unfold denoteField
+      simp only [expand_lit, h2, h1, Bool.false_eq_true, if_false]
+    rw [hstep]
+    have := ih { e0 with fields := e0.fields ++ [f] } (fun x hx => h x (by simp [hx]))
+    simp only [docOfRaw] at this
+    rw [this]
+    simp
+
+/-! ### `entryOkW` unpacked -/
+
+theorem valueOkW_iff {v : Str} : valueOkW v = true ↔
+    litScan false 0 v = some 0 ∧ normalizeWs v = v ∧ Safe v = true := by
+  simp [valueOkW, and_assoc]
+
+structure RoleGood (r : Str × List Person) : Prop where
+  name : isName r.1 = true
+  role : isPersonField r.1 = true
+  ne : r.2 ≠ []
+  persons : ∀ p ∈ r.2, personOkW p = true
+  value : valueOkW (formatNames r.2) = true
+
+structure FieldGood (f : Str × Str) : Prop where
+  name : isName f.1 = true
+  plain : isPersonField f.1 = false
+  value : valueOkW f.2 = true
+
+theorem rolesOkW_unpack : ∀ (rs : List (Str × List Person)) (seen : List Str), rolesOkW seen rs = true →
+    (∀ r ∈ rs, RoleGood r) ∧ distinctFrom seen (rolesRaw rs) := by
+  intro rs
+  induction rs with
+  | nil => intro _ _; exact ⟨by simp, trivial⟩
+  | cons r rs ih =>
+    intro seen h
+    simp only [rolesOkW, Bool.and_eq_true, Bool.not_eq_true', List.all_eq_true, decide_eq_true_eq] at h
+    obtain ⟨⟨⟨⟨⟨⟨h1, h2⟩, h3⟩, h4⟩, h5⟩, h6⟩, h7⟩ := h
+    obtain ⟨i1, i2⟩ := ih _ h7
+    refine ⟨?_, ?_⟩
+    · intro x hx
+      rcases List.mem_cons.1 hx with rfl | hx
+      · exact ⟨h1, h2, h4, h5, h6⟩
+      · exact i1 x hx
+    · exact ⟨h3, i2⟩
+
+theorem fieldsOkW_unpack : ∀ (fs : List (Str × Str)) (seen : List Str), fieldsOkW seen fs = true →
+    (∀ f ∈ fs, FieldGood f) ∧ distinctFrom seen fs := by
+  intro fs
+  induction fs with
+  | nil => intro _ _; exact ⟨by simp, trivial⟩
+  | cons f fs ih =>
+    intro seen h
+    simp only [fieldsOkW, Bool.and_eq_true, Bool.not_eq_true'] at h
+    obtain ⟨⟨⟨⟨h1, h2⟩, h3⟩, h4⟩, h5⟩ := h
+    obtain ⟨i1, i2⟩ := ih _ h5
+    refine ⟨?_, h3, i2⟩
+    intro x hx
+    rcases List.mem_cons.1 hx with rfl | hx
+    · exact ⟨h1, h2, h4⟩
+    · exact i1 x hx
+
+theorem isPersonField_lower {a b : Str} (h : lower a = lower b) : isPersonField a = isPersonField b := by
+  unfold isPersonField isPersonFieldOf; rw [h]
+
+/-- more names in `seen` do no harm when they are all (lower-cased) role names and the list holds
+no role name -/
+theorem distinctFrom_extra : ∀ (fs : List (Str × Str)) (seen extra : List Str),
+    distinctFrom seen fs → (∀ f ∈ fs, isPersonField f.1 = false) →
+    (∀ x ∈ extra, ∃ n, lower n = x ∧ isPersonField n = true) →
+    distinctFrom (seen ++ extra) fs := by
+  intro fs
+  induction fs with
+  | nil => intro _ _ _ _ _; trivial
+  | cons f fs ih =>
+    intro seen extra hd hp he
+    obtain ⟨h1, h2⟩ := hd
+    refine ⟨?_, ?_⟩
+    · simp only [List.contains_eq_mem, List.mem_append, decide_eq_false_iff_not, not_or]
+      refine ⟨by simpa using h1, ?_⟩
+      intro hx
+      obtain ⟨n, hn, hpn⟩ := he _ hx
+      have := isPersonField_lower hn
+      rw [hpn, hp f (by simp)] at this
+      cases this
+    · have := ih (lower f.1 :: seen) extra h2 (fun g hg => hp g (by simp [hg])) he
+      simpa using this
+
+theorem distinctFrom_append : ∀ (a b : List (Str × Str)) (seen : List Str),
+    distinctFrom seen a → distinctFrom ((a.map fun f => lower f.1).reverse ++ seen) b →
+    distinctFrom seen (a ++ b) := by
+  intro a
+  induction a with
+  | nil => intro b seen _ h; simpa using h
+  | cons f a ih =>
+    intro b seen ha hb
+    obtain ⟨h1, h2⟩ := ha
+    refine ⟨h1, ih b _ h2 ?_⟩
+    simpa [List.append_assoc] using hb
+
+structure EntryGood (keys : List Str) (e : Entry) : Prop where
+  ty : isName e.origType = true
+  notReserved : reserved.contains (lower e.origType) = false
+  lowType : e.type = lower e.origType
+  key : keyOk false e.key = true
+  fresh : keys.contains (lower e.key) = false
+  roles : ∀ r ∈ e.persons, RoleGood r
+  fields : ∀ f ∈ e.fields, FieldGood f
+  distinct : distinctFrom [] (rawFields e)
+
+theorem entryGood_of_ok {keys : List Str} {e : Entry} (h : entryOkW keys e = true) : EntryGood keys e := by
+  simp only [entryOkW, Bool.and_eq_true, Bool.not_eq_true', beq_iff_eq] at h
+  obtain ⟨⟨⟨⟨⟨⟨h1, h2⟩, h3⟩, h4⟩, h5⟩, h6⟩, h7⟩ := h
+  obtain ⟨r1, r2⟩ := rolesOkW_unpack _ _ h6
+  obtain ⟨f1, f2⟩ := fieldsOkW_unpack _ _ h7
+  refine ⟨h1, h2, h3, h4, h5, r1, f1, ?_⟩
+  unfold rawFields
+  apply distinctFrom_append _ _ _ r2
+  have := distinctFrom_extra e.fields [] ((rolesRaw e.persons).map fun f => lower f.1).reverse f2
+    (fun f hf => (f1 f hf).plain) ?_
+  · simpa using this
+  · intro x hx
+    simp only [List.mem_reverse, List.mem_map, rolesRaw] at hx
+    obtain ⟨_, ⟨r, hr, rfl⟩, rfl⟩ := hx
+    exact ⟨r.1, rfl, (r1 r hr).role⟩
+
+
+/-! ### an entry without fields: `@type{key` newline `}` (no comma: not a rendering of `Spec/Bib.lean`) -/
+
+theorem parseCommand_nofields (ty key : Str) (s : St) (r : Str)
+    (h : s.rest = ty ++ ('{' :: (key ++ ('\n' :: '}' :: r))))
+    (hty : isName ty = true) (hres : reserved.contains (lower ty) = false)
+    (hkey : keyOk false key = true) (hwant : s.db.wanted = none) :
+    ∃ ln' fn cv, parseCommand s =
+      .ok (Cmd.entry ty (some key) [])
+        { s with rest := r, ln := ln', curKey := some key, curFields := [], curFieldName := fn, curValue := cv } := by
+  simp only [reserved, List.contains_cons, List.contains_nil, Bool.or_false,
+    Bool.or_eq_false_iff, beq_eq_false_iff_ne, ne_eq] at hres
+  obtain ⟨ln2, h1, h2⟩ := command_head s [] ty [] false (key ++ ('\n' :: '}' :: r)) (by simpa [opener] using h)
+    AllWs.nil hty AllWs.nil
+  -- the key
+  have hkne : key ≠ [] := by
+    simp only [keyOk, Bool.and_eq_true, decide_eq_true_eq] at hkey; exact hkey.1
+  obtain ⟨k0, kt, rfl⟩ : ∃ k0 kt, key = k0 :: kt := by
+    cases key with
+    | nil => exact absurd rfl hkne
+    | cons a b => exact ⟨a, b, rfl⟩
+  have hk0 : isWs k0 = false := by
+    simp only [keyOk, Bool.and_eq_true, List.all_cons] at hkey
+    simpa using hkey.2.1.1.1
+  have hstop : Stops (keyChar false) ('\n' :: '}' :: r) := stops_cons.2 (keyChar_ws (by decide))
+  let s2 : St := { St.fresh s with rest := k0 :: kt ++ ('\n' :: '}' :: r), ln := ln2 }
+  have h3 := required_some [keyPat false] "entry key" s2 (w := []) (r := k0 :: kt ++ ('\n' :: '}' :: r)) rfl
+    AllWs.nil (stops_cons.2 hk0) (by simp)
+    (p := keyPat false) (v := k0 :: kt) (r' := '\n' :: '}' :: r)
+    (by simp only [firstMatch]; rw [matchAt_key hkey hstop])
+  obtain ⟨ln3, h4⟩ := parseEntryFields_end (('\n' :: '}' :: r).length + 1)
+    { s2 with rest := '\n' :: '}' :: r, ln := s2.ln + countNl [], curKey := some (k0 :: kt) } ['\n'] '}' r rfl
+    (by intro c hc; simp at hc; subst hc; decide) (ClChar.closer false)
+  have hbody : parseEntryBody false s2 = .ok ()
+      { s2 with rest := '}' :: r, ln := ln3, curKey := some (k0 :: kt), curFieldName := none, curValue := [] } := by
+    unfold parseEntryBody
+    rw [show (if false = true then Pat.keyParen else Pat.keyBrace) = keyPat false from rfl, h3]
+    simp only [h4, wantCurrent, wantEntry]
+    have : s2.db.wanted = none := hwant
+    simp [this]
+  have h5 := required_lit
+    { s2 with rest := '}' :: r, ln := ln3, curKey := some (k0 :: kt), curFieldName := none, curValue := [] }
+    '}' (descOf [.lit '}']) (w := []) rfl AllWs.nil (by decide)
+  refine ⟨ln3 + countNl [], none, [], ?_⟩
+  have hop : opener false = '{' := rfl
+  have hcl : closer false = '}' := rfl
+  rw [parseCommand_entry_of s _ _ _ _ ty _ false _ h1 (by rw [hop] at h2 ⊢; exact h2) hres.2.2 hres.1 hres.2.1
+    (by exact hbody) (by rw [hcl]; exact h5)]
+  simp [St.fresh, s2]
+
+
 end Pybtex.C02
